@@ -45,7 +45,7 @@ def run(model, res, tier):
     H.safely(res, 'R1', 'error items', _r1, model, res)
     H.safely(res, 'R2', 'regrouping', _r2, model, res)
     H.safely(res, 'R3', 'criteria', _r3, model, res)
-    _r4_r5(model, res)
+    H.safely(res, 'R4', 'r4_r5', _r4_r5, model, res)
     H.safely(res, 'R6', 'empty selection', _r6, model, res, E)
     H.safely(res, 'R7', 'closed forms', _r7, model, res)
     keys = []
